@@ -117,7 +117,7 @@ fn import_sequence_node_fields(
             continue;
         }
 
-        if matches!(tag_name, "attributeGroup" | "anyAttribute") {
+        if matches!(tag_name, "attributeGroup" | "anyAttribute" | "all") {
             // these do not declare a member
             continue;
         }
@@ -169,11 +169,8 @@ fn import_extension_fields(node: &mut Node, doc: &mut RustDocument, base_fields:
             }
         }
 
-        for n in base.children().filter(Node::is_element) {
-            if n.tag_name().name() == "sequence" {
-                import_sequence_node_fields(&mut base, doc, base_fields)?;
-            }
-        }
+        // the extension's own content: its sequence (if any) and its attributes
+        import_sequence_node_fields(&mut base, doc, base_fields)?;
     }
     Ok(())
 }
